@@ -54,6 +54,7 @@ package utils
 //@ func ReadByte
 //@ requires rd != nil && 0 <= rd.spos && rd.spos <= rd.sn
 //@ modifies rd.spos, rd.sfault
+//@ ensures [H] old(rd.sgreedy) && old(rd.sfault) == nil ==> rd.sfault == nil
 //@ ensures [P:C09] rd.sfault == nil ==> (result1 == nil <==> old(rd.sn) - old(rd.spos) >= 1)
 //@ ensures [P:C09] result1 == nil ==> (rd.spos == old(rd.spos) + 1 && result0 == rd.sdata[old(rd.spos)])
 //@ ensures [P:C10] result1 == io.EOF ==> rd.sfault == nil
@@ -91,6 +92,7 @@ package utils
 //@ requires reader != nil && 0 <= reader.spos && reader.spos <= reader.sn
 //@ modifies reader.spos, reader.sfault
 //@ ensures [P:C02] result1 == nil ==> (result0 == vlqAcc(reader.sdata, old(reader.spos), reader.spos - old(reader.spos)) && vlqEndsAt(reader.sdata, old(reader.spos), reader.spos - old(reader.spos)))
+//@ ensures [P:C02] result1 == nil ==> vlqEnd(reader.sdata, old(reader.spos), reader.spos - old(reader.spos))
 //@ ensures [P:C09] result1 != nil && reader.sfault == nil ==> (reader.spos == reader.sn && forall i int :: old(reader.spos) <= i && i < reader.sn ==> (reader.sdata[i] & 0x80) != 0)
 //@ ensures [P:C02] result1 == nil && reader.spos - old(reader.spos) <= 5 ==> vlqEnds5(reader.sdata, old(reader.spos), reader.spos - old(reader.spos))
 //@ ensures [P:C02] result1 == nil && reader.spos - old(reader.spos) <= 5 ==> result0 == vlqDec(reader.sdata, old(reader.spos), reader.spos - old(reader.spos))
